@@ -222,21 +222,51 @@ def run_check(pid: str, tier: str, jobs: List[Job], functions: List[str], assump
         mod = importlib.import_module(job.module)
         fn = getattr(mod, job.name)
         step = max(1, len(r["samples"]) // job.validate_limit)
-        for s in r["samples"][::step][:job.validate_limit]:
-            v, d = chx.run_concrete(fn, s)
+        chosen = r["samples"][::step][:job.validate_limit]
+        from engine.verdicts import forked
+
+        # (in a forked child: the code under test must not leave state in this process, from which later workers are forked)
+        def _validate_all():
+            out = []
+            for s in chosen:
+                v, d = chx.run_concrete(fn, s)
+                desc = None
+                if job.describe:
+                    try:
+                        desc = chx.jsonable(job.describe(job.name, s))
+                    except Exception as e:  # noqa: BLE001
+                        desc = {"describe_error": repr(e)}
+                out.append((v, d, desc))
+            return out
+
+        try:
+            validated_results = forked(_validate_all)
+        except RuntimeError as e:
+            validated_results = []
+            inconclusive.append(f"{hname}: concrete re-validation failed to run: {e}")
+        for vi, (s, (v, d, desc)) in enumerate(zip(chosen, validated_results)):
             if v == "PASS":
                 validated += 1
-            elif v == "FAIL":
-                # the engine said PASS on this path, the plain interpreter says FAIL: engine artefact
+            elif v == "FAIL" and not any(p_.startswith(os.path.join(REPLAYS, f"{pid}-")) and hname in open(p_).read() for p_ in violations):
+                # the engine said PASS on this path, the plain interpreter says FAIL (an engine model hides the failure, or the
+                # failure depends on what the earlier re-validated cases left behind in the process): confirm it in a fresh
+                # interpreter, alone or as the history of cases re-validated so far
                 path = replay_file(pid, hname, chx.jsonable(s), d or "")
+                v2, d2 = replay_concrete(path)
+                totals["replayed"] += 1
+                if v2 != "FAIL":
+                    os.unlink(path)
+                    got = replay_sequence(pid, hname, [chx.jsonable(x) for x in chosen[: vi + 1]], "history of re-validated cases executed in one process")
+                    if not got:
+                        artefacts.append({"harness": hname, "args": chx.jsonable(s), "engine_detail": "concrete re-validation failed only inside the validation process: " + str(d),
+                                          "replay": [v2, d2]})
+                        continue
+                    path, d = got
                 violations.append(path)
                 print(f"VIOLATION property={pid} replay={path}", flush=True)
                 print(f"  {hname} (found while re-validating an explored path concretely): {d}", flush=True)
             if job.describe and len(samples) < 12:
-                try:
-                    samples.append({"harness": job.name, "case": chx.jsonable(job.describe(job.name, s))})
-                except Exception as e:  # noqa: BLE001
-                    samples.append({"harness": job.name, "args": chx.jsonable(s), "describe_error": repr(e)})
+                samples.append({"harness": job.name, "case": desc})
             elif len(samples) < 12:
                 samples.append({"harness": job.name, "args": chx.jsonable(s)})
         job_reports.append({
